@@ -310,6 +310,7 @@ func runC15(c *Ctx) {
 	concatPicksEarliest(c, "R4")
 	retryLaterNotWrapped(c, "R4")
 	retryLaterSurvivesAdapters(c, "R4")
+	zeroDelayHonoured(c, "R4")
 	if cf := p.Fn("tq", "(batch).Concat"); cf != nil {
 		n := 0
 		for _, b := range cf.Blocks {
